@@ -204,15 +204,20 @@ class SymmetryAnalyzer(object):
         Returns:
             bool: is the object chiral.
         """
-        operations = self.get_symmetry_operations()
-        rotations = operations["rotations"]
-        chiral = True
+        # The operations of the detected space group are taken from the spglib
+        # database: the rotations in the symmetry dataset are expressed in the
+        # basis of the given cell and only include the operations that keep the
+        # lattice of the given (possibly non-primitive) cell invariant.
+        hall_number = self.get_hall_number()
+        rotations = spglib.get_symmetry_from_database(hall_number)["rotations"]
         for rotation in rotations:
+            # The determinant of an integer matrix is an integer, but the
+            # floating point result may differ from it by rounding errors.
             determinant = np.linalg.det(rotation)
-            if determinant == -1.0:
+            if determinant < 0:
                 return False
 
-        return chiral
+        return True
 
     def get_has_free_wyckoff_parameters(self):
         """Tells whether this system has Wyckoff positions with free variables.
